@@ -262,4 +262,36 @@ def runResets (H : Bytes → Bytes) (stores : Nat → Store) : List (Nat × Byte
   | [] => stores
   | (i, t) :: r => runResets H (resetAt H stores i t) r
 
+/-! ### `Storage.Hashes` next to concurrent `Reset`s
+
+`Reset` swaps the shared map atomically while lookups run.  The functions above describe a lookup
+on one map; what ties them to a lookup that overlaps resets is that the code reads the shared
+pointer once.  `hashesLoads` is `Storage.Hashes` as it computes its answer, with the map every
+single look-up goes to made explicit, so that "once" can be stated and its negation refuted. -/
+
+/-- The counting loop: `l += len(hashSufs)`, the `k`-th prefix looked up in the `k`-th map. -/
+def countLoop (maps : List Store) (prefs : List Bytes) : Nat :=
+  ((maps.zip prefs).map (fun sp => (sp.1 sp.2).length)).sum
+
+/-- The encoding loop: the digests written to the buffer, the `k`-th prefix looked up in the
+`k`-th map. -/
+def encodeLoop (maps : List Store) (prefs : List Bytes) : List Bytes :=
+  (maps.zip prefs).flatMap (fun sp => (sp.1 sp.2).map (fun suf => sp.2 ++ suf))
+
+/-- `Storage.Hashes`: count, encode into one buffer, cut the buffer into `l` digests.  `cnt` are
+the maps the counting loop sees and `enc` those the encoding loop sees, one per requested prefix
+(a `Reset` may replace the shared map between any two look-ups).  `none` is the panic of
+`str[i*hashEncLen:(i+1)*hashEncLen]` when the buffer holds fewer than `l` digests.  The code loads
+the pointer once, before both loops (Tie `hashes_loads_src`): it is the instance with the same
+map everywhere, which is `hashes` (`hashesLoads_snapshot`). -/
+def hashesLoads (cnt enc : List Store) (prefs : List Bytes) : Option (List Bytes) :=
+  if prefs = [] then some []
+  else if (encodeLoop enc prefs).length < countLoop cnt prefs then none
+  else some ((encodeLoop enc prefs).take (countLoop cnt prefs))
+
+/-- The map in force after the first `k` resets of a history: what a lookup that loads the
+pointer at that moment works on, whatever the later resets do meanwhile. -/
+def storeAt (H : Bytes → Bytes) (stores : Nat → Store) (ops : List (Nat × Bytes)) (k i : Nat) : Store :=
+  runResets H stores (ops.take k) i
+
 end Agd.HashPrefix
